@@ -18,6 +18,10 @@ MCInit == /\ \E c \in CfgSet :
 MCNext == Next /\ UNCHANGED full
 MCSpec == MCInit /\ [][MCNext]_<<vars, step, full>>
 MCView == <<vars, full>>
+(* C05 "closing all server connections completes": under weak fairness of Shutdown a connection the
+   server may shut down ends up closed (checked without VIEW: MCL_HttpReader.cfg) *)
+MCLive == MCInit /\ [][MCNext]_<<vars, step, full>> /\ WF_<<vars, step, full>>(Shutdown /\ UNCHANGED full)
+ShutdownCloses == cfg.shut => <>(r.closed)
 (* C05: what was delivered is a prefix of what the peer sent in full *)
 PrefixOfSent == PrefixOf(full)
 =============================================================================
